@@ -25,6 +25,10 @@ def cases():
     gen = lambda rs, n: rs.randn(n, n) + 2 * onp.eye(n)
     rect = lambda rs, n: rs.randn(n + 1, n)
     symdir = lambda rs, n: sym(rs, n)
+    cube = lambda rs, n: rs.randn(n + 1, n, n + 2)
+    batch = lambda rs, n: rs.randn(2, n, n) + 2 * onp.eye(n)
+    batch_spd = lambda rs, n: onp.stack([spd(rs, n), spd(rs, n)])
+    batch_sym = lambda rs, n: onp.stack([sym(rs, n), sym(rs, n)])
     return [
         ("eigh eigenvalues", lambda x: np.linalg.eigh(x)[0], sym, symdir, 3),
         ("eigh eigenvectors (sign-invariant: v*v)", lambda x: np.linalg.eigh(x)[1] ** 2, sym, symdir, 3),
@@ -45,6 +49,12 @@ def cases():
         ("slogdet", lambda x: np.linalg.slogdet(x)[1], spd, symdir, 3),
         ("solve", lambda x: np.linalg.solve(x, onp.arange(1.0, x.shape[0] + 1)), gen, gen, 3),
         ("norm nuc", lambda x: np.linalg.norm(x, "nuc"), gen, gen, 3),
+        ("norm nuc over axis=(0, 1) of a 3-D array", lambda x: np.linalg.norm(x, "nuc", axis=(0, 1)), cube, cube, 3),
+        ("norm nuc over axis=(2, 0) of a 3-D array (row axis after the column axis, not adjacent)", lambda x: np.linalg.norm(x, "nuc", axis=(2, 0)), cube, cube, 3),
+        ("norm nuc over axis=(1, 2) / (2, 1) of a 3-D array", lambda x: np.linalg.norm(x, "nuc", axis=(1, 2)) + 2.0 * np.linalg.norm(x, "nuc", axis=(2, 1)), cube, cube, 3),
+        ("det / inv / solve on a batch of matrices", lambda x: np.linalg.det(x) + np.sum(np.linalg.inv(x), axis=(1, 2)) + np.sum(np.linalg.solve(x, onp.ones((2, 3, 1))), axis=(1, 2)), batch, batch, 3),
+        ("cholesky / slogdet on a batch of SPD matrices", lambda x: np.sum(np.linalg.cholesky(x), axis=(1, 2)) + np.linalg.slogdet(x)[1], batch_spd, batch_sym, 3),
+        ("svd singular values of a batch", lambda x: np.linalg.svd(x, compute_uv=False), batch, batch, 3),
         ("eig eigenvalues (real parts, SPD input)", lambda x: np.real(np.linalg.eig(x)[0]) ** 2, spd, symdir, 3),
     ]
 
@@ -63,7 +73,7 @@ def run(seed=0):
                         "paths": 1, "queries": 0, "validated": 1, "verdicts": {}, "cex": {"env": {}, "mode": "lapack"}})
             onp.seterr(**err_state0)
         rs = onp.random.RandomState(seed + 11)
-        fails = {"vjp": 0, "rev-over-rev": 0, "double-vjp at zero cotangent": 0}
+        fails = {"vjp": 0, "jvp": 0, "rev-over-rev": 0, "double-vjp at zero cotangent": 0}
         info = {}
         tried = 0
         err = None
@@ -77,6 +87,11 @@ def run(seed=0):
                     # first order: <vjp(g), v> == <g, df[v]>
                     vj = core.make_vjp(f, x)[0](g)
                     a1, b1 = float(onp.sum(vj * v)), float(onp.sum(g * _fd(f, x, v)))
+                    # forward mode, where a rule exists: <g, jvp(v)> against the same finite difference
+                    try:
+                        a0 = float(onp.sum(g * onp.asarray(core.make_jvp(f, x)(v)[1])))
+                    except (NotImplementedError, KeyError):
+                        a0 = None
                     # reverse over reverse: d/dx <vjp_x(g), w> in direction v  vs  FD of x -> <g, df_x[w]>
                     inner = lambda xx: autograd.numpy.sum(core.make_vjp(f, xx)[0](g) * w)
                     hv = core.make_vjp(inner, x)[0](1.0)
@@ -94,6 +109,9 @@ def run(seed=0):
             if not abs(a1 - b1) <= 1e-4 * sc(a1, b1):
                 fails["vjp"] += 1
                 info["vjp"] = (a1, b1)
+            if a0 is not None and not abs(a0 - b1) <= 1e-4 * sc(a0, b1):
+                fails["jvp"] += 1
+                info["jvp"] = (a0, b1)
             if not abs(a2 - b2) <= 5e-3 * sc(a2, b2):
                 fails["rev-over-rev"] += 1
                 info["rev-over-rev"] = (a2, b2)
